@@ -2,8 +2,9 @@
    line/plane intersection, planes.  tr_* / pc_* regenerated from /repo on every run.
    The model mirrors the code as it is; where the code violates the property the full statement is kept in a comment
    and a `_refuted` witness + a `_partial` guarded statement are proved (each `_refuted` witness is replayed on the
-   implementation by props/C19.py and is a known finding).  Four such pairs remain; Plane.contains was repaired in
-   /repo (82519e9) and now has the full-strength theorem. *)
+   implementation by props/C19.py and is a known finding).  No such pair remains: all five defects that needed one
+   (Plane.contains 82519e9, reciprocal product 9b08ad9, commonperp ba1d83a, distance 77e7e2a, intersect_plane lam a2fbf35)
+   were repaired in /repo and now have the full-strength theorems; Plane.P3 (80f9d50) and intersects (5acc1ad) trace now. *)
 From Coq Require Import Reals ZArith Lra Lia Nsatz Psatz.
 From SM Require Import Base.Ops Base.Lin Base.RInst Base.RLin.
 From SMgen Require Import Traces_C19.
@@ -108,82 +109,70 @@ Qed.
 Print Assumptions C19_isparallel_rescaled.
 
 (* ---------- reciprocal product  l1 * l2  ---------- *)
-(* what the code computes: each moment is paired with the UNIT direction of the other line *)
-Theorem C19_recip_formula : forall (L M : V6 R), 0 < pc_recip_0 Rops L M -> 0 < pc_recip_1 Rops L M ->
-  tr_recip Rops L M = dot3 Rops (lv L) (lw M) / sqrt (normsq3 Rops (lw M)) + dot3 Rops (lw L) (lv M) / sqrt (normsq3 Rops (lw L)).
-Proof. intros L M H0 H1. destruct_tuples. unf2. abs_sqrt. pos_sqrt. fld. Qed.
-Print Assumptions C19_recip_formula.
+Definition recip_ref (L M : V6 R) : R := dot3 Rops (lw L) (lv M) + dot3 Rops (lv L) (lw M).
 
-(* FULL STATEMENT (false of the code as it is):
-     forall L M x, is_line L -> is_line M -> on L x -> on M x -> tr_recip L M = 0
-   i.e. the reciprocal product of two lines that meet is zero.  It fails when the direction lengths differ. *)
-Theorem C19_recip_meeting_lines_refuted : exists (L M : V6 R) (x : V3 R),
-  is_line L /\ is_line M /\ on L x /\ on M x /\ 0 < pc_recip_0 Rops L M /\ 0 < pc_recip_1 Rops L M /\
-  tr_recip Rops L M <> 0.
+(* the code: the reciprocal product of the two lines scaled to unit direction (repaired by /repo 9b08ad9; before it
+   each moment was paired with the unit direction of the other line only: a _refuted/_partial pair) *)
+Theorem C19_recip_value : forall (L M : V6 R), normsq3 Rops (lw L) <> 0 -> normsq3 Rops (lw M) <> 0 ->
+  tr_recip Rops L M = recip_ref L M / (sqrt (normsq3 Rops (lw L)) * sqrt (normsq3 Rops (lw M))).
 Proof.
-  exists (0,-1,0,1,0,0), (2,0,0,0,2,0), (0,0,1). unf2. abs_sqrt.
-  assert (s = 1) by nra. assert (s0 = 2) by nra. subst.
-  repeat split; try lra; try (tuple_eq ltac:(ring)); try (intro; lra).
+  intros L M H0 H1. destruct_tuples. unfold recip_ref. unf2. abs_sqrt.
+  assert (s <> 0) by (intro Z; subst; nra). assert (s0 <> 0) by (intro Z; subst; nra). fld.
 Qed.
-Print Assumptions C19_recip_meeting_lines_refuted.
+Print Assumptions C19_recip_value.
 
-Theorem C19_recip_meeting_lines_partial : forall (L M : V6 R) (x : V3 R),
-  0 < pc_recip_0 Rops L M -> 0 < pc_recip_1 Rops L M -> on L x -> on M x ->
-  normsq3 Rops (lw L) = normsq3 Rops (lw M) -> tr_recip Rops L M = 0.
+(* full statement: the reciprocal product of two lines that meet is zero, for any direction lengths *)
+Theorem C19_recip_meeting_lines : forall (L M : V6 R) (x : V3 R),
+  normsq3 Rops (lw L) <> 0 -> normsq3 Rops (lw M) <> 0 -> on L x -> on M x -> tr_recip Rops L M = 0.
 Proof.
-  intros L M x H0 H1 HL HM HN. destruct_tuples. unf2. injection HL; intros; subst. injection HM; intros; subst.
-  rewrite HN in *. abs_sqrt. pos_sqrt. abs_inv. nsz.
+  intros L M x H0 H1 HL HM. rewrite (C19_recip_value L M H0 H1).
+  assert (E : recip_ref L M = 0).
+  { clear H0 H1. destruct_tuples. unfold recip_ref. unf2. injection HL; intros; subst. injection HM; intros; subst. ring. }
+  rewrite E. unfold Rdiv. apply Rmult_0_l.
 Qed.
-Print Assumptions C19_recip_meeting_lines_partial.
+Print Assumptions C19_recip_meeting_lines.
+
+(* ... and it is invariant under rescaling either direction by a positive factor *)
+Theorem C19_recip_scale_invariant : forall (L M : V6 R) (k : R), 0 < k ->
+  normsq3 Rops (lw L) <> 0 -> normsq3 Rops (lw M) <> 0 -> tr_recip Rops (scale6 k L) M = tr_recip Rops L M.
+Proof.
+  intros L M k Hk H0 H1. destruct_tuples. unf2. abs_sqrt.
+  match goal with Ha : ?a * ?a = k * _ * _ + _ + _, Hb : ?b * ?b = ?x * ?x + _ + _ |- _ =>
+    first [ assert (Eb : a = k * b) by (apply Rsqr_inj; [lra | nra | unfold Rsqr; nra]); subst a | fail ] end.
+  repeat match goal with Hs : ?s * ?s = _, Hp : 0 <= ?s |- _ => is_var s;
+    lazymatch goal with _ : s <> 0 |- _ => fail | _ => assert (s <> 0) by (intro Z; subst; nra) end end.
+  fld.
+Qed.
+Print Assumptions C19_recip_scale_invariant.
 
 (* ---------- common perpendicular ---------- *)
-Definition cp_path (L M : V6 R) : Prop :=
-  pc_commonperp_0 Rops L M <= 0 /\ 0 < pc_commonperp_1 Rops L M /\ 0 < pc_commonperp_2 Rops L M /\ 0 < pc_commonperp_3 Rops L M.
+Definition cp_path (L M : V6 R) : Prop := pc_commonperp_0 Rops L M <= 0.     (* the parallel test is not taken *)
+Ltac nn_nz :=  (* from  c - sqrt e <= 0  with c > 0 :  0 < sqrt e,  e <> 0 *)
+  repeat match goal with
+  | H : _ + -1 * ?s <= 0, Hss : ?s * ?s = ?e |- _ =>
+      lazymatch goal with _ : 0 < s |- _ => fail | _ => assert (0 < s) by lra; assert (e <> 0) by nra end
+  end.
 
-(* geometry (holds of the code as it is): the point set  { pp + t w }  of the result has direction w1 x w2, is orthogonal
-   to both lines and meets both (coplanar with each, directions not parallel) *)
-Theorem C19_commonperp_geometry : forall (L M : V6 R) (x y : V3 R), cp_path L M -> is_line L -> is_line M ->
+(* full statement (repaired by /repo ba1d83a): the result is a line (v.w = 0) with direction w1 x w2, orthogonal to both
+   lines and meeting both (coplanar with each, directions not parallel) *)
+Theorem C19_commonperp : forall (L M : V6 R) (x y : V3 R), cp_path L M -> is_line L -> is_line M ->
   let C := tr_commonperp Rops L M in
-  lw C = cross3 Rops (lw L) (lw M) /\ dot3 Rops (lw C) (lw L) = 0 /\ dot3 Rops (lw C) (lw M) = 0 /\
+  is_line C /\ lw C = cross3 Rops (lw L) (lw M) /\ dot3 Rops (lw C) (lw L) = 0 /\ dot3 Rops (lw C) (lw M) = 0 /\
   (on L x -> dot3 Rops (vsub3 Rops x (tr_pp Rops C)) (cross3 Rops (lw L) (lw C)) = 0) /\
   (on M y -> dot3 Rops (vsub3 Rops y (tr_pp Rops C)) (cross3 Rops (lw M) (lw C)) = 0).
 Proof.
-  intros L M x y (P0 & P1 & P2 & P3) HL HM. destruct_tuples. unfold cp_path in *. unf2.
-  abs_sqrt. pos_sqrt. split; [tuple_eq ltac:(ring)| split; [ring | split; [ring | split ]]].
+  intros L M x y P0 HL HM. destruct_tuples. unfold cp_path in *. unf2.
+  abs_sqrt. nn_nz. split; [| split; [tuple_eq ltac:(ring)| split; [ring | split; [ring | split ]]]].
+  - abs_inv. nsz.
   - intros Hx. injection Hx; intros; subst. abs_inv. nsz.
   - intros Hy. injection Hy; intros; subst. abs_inv. nsz.
 Qed.
-Print Assumptions C19_commonperp_geometry.
+Print Assumptions C19_commonperp.
 
-Ltac lit_sqrt_v s Hs v := assert (s = v) by (apply Rsqr_inj; [lra | lra | unfold Rsqr; rewrite Hs; field]).
-Ltac lit_sqrt := repeat match goal with Hs : ?s * ?s = _, H0 : 0 <= ?s |- _ => is_var s;
-    first [ lit_sqrt_v s Hs 1 | lit_sqrt_v s Hs 2 | lit_sqrt_v s Hs 3 | lit_sqrt_v s Hs 4 | lit_sqrt_v s Hs 5 | lit_sqrt_v s Hs (4/5) ]; subst s end.
-
-(* FULL STATEMENT (false of the code as it is):
-     forall L M, cp_path L M -> is_line L -> is_line M -> is_line (tr_commonperp L M)
-   the component of the moment along w1 x w2 is scaled by 1/|w1 x w2| and uses the normalised reciprocal product *)
-Theorem C19_commonperp_constraint_refuted : exists L M : V6 R,
-  cp_path L M /\ is_line L /\ is_line M /\ ~ is_line (tr_commonperp Rops L M).
-Proof.
-  exists (0,0,0,1,0,0), (4,-3,0,3,4,0). unfold cp_path. unf2. abs_sqrt. lit_sqrt.
-  repeat split; try lra; try (intro; lra).
-Qed.
-Print Assumptions C19_commonperp_constraint_refuted.
-
-Theorem C19_commonperp_constraint_partial : forall L M : V6 R, cp_path L M -> is_line L -> is_line M ->
-  dot3 Rops (lw L) (lw M) = 0 -> is_line (tr_commonperp Rops L M).
-Proof.
-  intros L M (P0 & P1 & P2 & P3) HL HM HO. destruct_tuples. unfold cp_path in *. unf2.
-  abs_sqrt. pos_sqrt. abs_inv. nsz.
-Qed.
-Print Assumptions C19_commonperp_constraint_partial.
-
-(* ---------- distance between two non-parallel lines ---------- *)
-Definition dist_path (L M : V6 R) : Prop :=
-  pc_distance_0 Rops L M <= 0 /\ 0 < pc_distance_1 Rops L M /\ 0 < pc_distance_2 Rops L M /\ pc_distance_3 Rops L M <= 0.
+(* ---------- distance between two lines ---------- *)
+Definition dist_path (L M : V6 R) : Prop := pc_distance_0 Rops L M <= 0 /\ pc_distance_1 Rops L M <= 0.
 (* elementary geometry: for feet x on L, y on M with x - y orthogonal to both directions,
    |x - y|^2 |w1 x w2|^2 = (w1.v2 + v1.w2)^2 *)
-Definition recip_ref (L M : V6 R) : R := dot3 Rops (lw L) (lv M) + dot3 Rops (lv L) (lw M).
 Definition dist_ref (L M : V6 R) : R := Rabs (recip_ref L M) / sqrt (normsq3 Rops (cross3 Rops (lw L) (lw M))).
 
 Theorem C19_distance_reference : forall (L M : V6 R) (x y : V3 R), on L x -> on M y ->
@@ -195,43 +184,76 @@ Proof.
 Qed.
 Print Assumptions C19_distance_reference.
 
-Theorem C19_distance_formula : forall L M : V6 R, dist_path L M ->
-  tr_distance Rops L M = Rabs (tr_recip Rops L M) / normsq3 Rops (cross3 Rops (lw L) (lw M)).
+(* full statement (repaired by /repo 77e7e2a), skew branch: the distance of elementary geometry *)
+Theorem C19_distance_skew : forall L M : V6 R, dist_path L M -> tr_distance Rops L M = dist_ref L M.
 Proof.
-  intros L M (P0 & P1 & P2 & P3). destruct_tuples. unfold dist_path in *. unf2.
-  match goal with |- context [Rabs ?E] => set (A := Rabs E) in * end.
-  try match goal with |- context [Rabs ?E'] => replace (Rabs E') with A by (unfold A; f_equal; ring) end.
-  abs_sqrt. assert (0 < s) by lra. fld.
+  intros L M (P0 & P1). destruct_tuples. unfold dist_path, dist_ref, recip_ref in *. unf2.
+  match goal with |- 1 / sqrt ?a * Rabs ?e = Rabs ?f / sqrt ?b =>
+    replace f with e by ring; replace b with a by ring; assert (0 < sqrt a) by lra; field; lra end.
 Qed.
-Print Assumptions C19_distance_formula.
+Print Assumptions C19_distance_skew.
 
-(* FULL STATEMENT (false of the code as it is):  forall L M, dist_path L M -> is_line L -> is_line M -> tr_distance L M = dist_ref L M
-   refuted even for unit directions: the quotient is by |w1 x w2|^2 *)
-Theorem C19_distance_refuted : exists L M : V6 R,
-  dist_path L M /\ is_line L /\ is_line M /\ normsq3 Rops (lw L) = 1 /\ normsq3 Rops (lw M) = 1 /\
-  tr_distance Rops L M <> dist_ref L M.
+(* the branch for meeting lines returns 0; on that branch the distance of elementary geometry is below
+   10 eps |w1| |w2| / |w1 x w2|, and exactly 0 when the lines have a common point *)
+Theorem C19_distance_meeting : forall (L M : V6 R) (x : V3 R),
+  tr_distance_meet Rops L M = 0 /\
+  (on L x -> on M x -> dist_ref L M = 0) /\
+  (pc_distance_meet_0 Rops L M <= 0 -> 0 < pc_distance_meet_1 Rops L M -> normsq3 Rops (lw L) <> 0 -> normsq3 Rops (lw M) <> 0 ->
+     dist_ref L M * sqrt (normsq3 Rops (cross3 Rops (lw L) (lw M)))
+       < 5 / 2251799813685248 * (sqrt (normsq3 Rops (lw L)) * sqrt (normsq3 Rops (lw M)))).
 Proof.
-  exists (0,0,0,1,0,0), (4/5,-(3/5),0,3/5,4/5,0). unfold dist_path, dist_ref, recip_ref. unf2. abs_sqrt.
-  lit_sqrt.
-  repeat match goal with |- context [Rabs ?E] => progress (replace E with (4/5) by field) end.
-  rewrite (Rabs_right (4/5)) by lra.
-  repeat split; try lra; try field.
-  all: try match goal with |- ?A <> ?B => assert (EA : A = 5/4) by field; assert (EB : B = 1) by field; rewrite EA, EB; lra end.
+  intros L M x. split; [|split].
+  - destruct_tuples. unf2. reflexivity.
+  - intros HL HM. unfold dist_ref. replace (recip_ref L M) with 0.
+    + rewrite Rabs_R0. unfold Rdiv. apply Rmult_0_l.
+    + destruct_tuples. unfold recip_ref. unf2. injection HL; intros; subst. injection HM; intros; subst. ring.
+  - intros P0 P1 H0 H1. destruct_tuples. unfold dist_ref, recip_ref. unf2.
+    match goal with |- Rabs ?f / sqrt ?b * sqrt ?b' < _ => replace b' with b by ring;
+      match type of P1 with context [Rabs ?e] => replace f with e by ring; set (A := Rabs e) in * end end.
+    abs_sqrt. nn_nz.
+    repeat match goal with Hs : ?s * ?s = _, Hp : 0 <= ?s |- _ => is_var s;
+      lazymatch goal with _ : 0 < s |- _ => fail | _ => assert (0 < s) by (destruct (Req_dec s 0); [subst; nra | lra]) end end.
+    match goal with |- A / ?n * ?n < ?c * (?a * ?b) =>
+      replace (A / n * n) with A by (field; lra);
+      assert (Q : c + -1 * (1 / a) * (1 / b) * A > 0) by lra;
+      assert (E : (1 / a) * (1 / b) * A = A / (a * b)) by (field; split; lra);
+      assert (0 < a * b) by nra;
+      assert (A / (a * b) < c) by lra;
+      apply (Rmult_lt_reg_r (/ (a * b))); [apply Rinv_0_lt_compat; assumption|];
+      replace (c * (a * b) * / (a * b)) with c by (field; split; lra); exact H4 || lra end.
 Qed.
-Print Assumptions C19_distance_refuted.
+Print Assumptions C19_distance_meeting.
 
-Theorem C19_distance_partial : forall L M : V6 R, dist_path L M -> is_line L -> is_line M ->
-  normsq3 Rops (lw L) = 1 -> normsq3 Rops (lw M) = 1 -> dot3 Rops (lw L) (lw M) = 0 ->
-  tr_distance Rops L M = dist_ref L M.
+(* parallel branch: for w2 = k w1 the result is the distance of any point of M from the line L *)
+Theorem C19_distance_parallel : forall (L M : V6 R) (x y : V3 R) (k : R), k <> 0 -> normsq3 Rops (lw L) <> 0 ->
+  lw M = vscale3 Rops k (lw L) -> on L x -> on M y ->
+  tr_distance_par Rops L M = sqrt (normsq3 Rops (cross3 Rops (vsub3 Rops y x) (lw L))) / sqrt (normsq3 Rops (lw L)) /\
+  0 < pc_distance_par_0 Rops L M.
 Proof.
-  intros L M HP HL HM N1 N2 HO. rewrite (C19_distance_formula L M HP).
-  destruct HP as (P0 & P1 & P2 & P3). rewrite (C19_recip_formula L M); [| exact P1 | exact P2].
-  unfold dist_ref, recip_ref. rewrite N1, N2, sqrt_1.
-  assert (EN : normsq3 Rops (cross3 Rops (lw L) (lw M)) = 1).
-  { clear P0 P1 P2 P3. destruct_tuples. unf2. nsz. }
-  rewrite EN, sqrt_1. f_equal. f_equal. destruct_tuples. unf2. field.
+  intros L M x y k Hk Hw HW HL HM. destruct_tuples. unf2.
+  injection HW; intros; subst. injection HL; intros; subst. injection HM; intros; subst. split.
+  - match goal with |- 1 / ?W * sqrt ?A = sqrt ?B / sqrt ?W' =>
+      assert (HWp : 0 < W) by (assert (0 <= W) by sq_nonneg; lra);
+      assert (HB : 0 <= B) by sq_nonneg;
+      assert (E : A = W * B) by (abs_inv; nsz);
+      rewrite E, sqrt_mult by lra;
+      assert (HS : sqrt W * sqrt W = W) by (apply sqrt_sqrt; lra);
+      assert (0 < sqrt W) by (apply sqrt_lt_R0; exact HWp);
+      set (sw := sqrt W) in *; set (sb := sqrt B) in *; rewrite <- HS; field; lra end.
+  - match goal with |- 0 < _ + -1 * sqrt ?e => replace e with 0 by ring; rewrite sqrt_0; lra end.
 Qed.
-Print Assumptions C19_distance_partial.
+Print Assumptions C19_distance_parallel.
+
+(* ---------- intersection point of two lines (repaired by /repo 5acc1ad) ---------- *)
+Theorem C19_intersects_point : forall (L M : V6 R) (x : V3 R), pc_intersects_0 Rops L M <= 0 ->
+  on L x -> on M x -> tr_intersects Rops L M = x /\ 0 < pc_intersects_1 Rops L M.
+Proof.
+  intros L M x P0 HL HM. destruct_tuples. unf2. injection HL; intros; subst. injection HM; intros; subst.
+  split.
+  - abs_sqrt. nn_nz. abs_inv. tuple_eq ltac:(nsz).
+  - match goal with |- context [Rabs ?e] => replace e with 0 by ring end. rewrite Rabs_R0. lra.
+Qed.
+Print Assumptions C19_intersects_point.
 
 (* ---------- line / plane intersection ---------- *)
 Ltac den_nz H := match type of H with 0 < _ + Rabs ?d => assert (d <> 0) by (let Hz := fresh "Hz" in intro Hz; rewrite Hz, Rabs_R0 in H; lra) end.
@@ -245,35 +267,17 @@ Proof.
 Qed.
 Print Assumptions C19_intersect_plane_point.
 
-(* what `lam` is: the signed offset of the principal point from the plane along the (unnormalised) normal *)
-Theorem C19_intersect_plane_lam_formula : forall (L : V6 R) (a : V4 R), 0 < pc_ip_0 Rops L a ->
-  tr_ip_lam Rops L a = dot3 Rops (vsub3 Rops (tr_pp Rops L) (tr_ip_p Rops L a)) (pn a).
-Proof. intros L a H. destruct_tuples. unf2. ring. Qed.
-Print Assumptions C19_intersect_plane_lam_formula.
-
-(* FULL STATEMENT (false of the code as it is):
-     forall L a k, is_line L -> 0 < pc_ip_0 L a -> 0 < pc_point_0 L k -> tr_point L (tr_ip_lam L a) = tr_ip_p L a *)
-Theorem C19_intersect_plane_lam_refuted : exists (L : V6 R) (a : V4 R),
-  is_line L /\ 0 < pc_ip_0 Rops L a /\ 0 < pc_point_0 Rops L (tr_ip_lam Rops L a) /\
-  tr_point Rops L (tr_ip_lam Rops L a) <> tr_ip_p Rops L a.
-Proof.
-  exists (0,0,0,1,0,0), (1,0,0,-2). unf2. abs_sqrt. lit_sqrt.
-  replace (1 * 1 + 0 * 0 + 0 * 0) with 1 by ring. rewrite Rabs_R1.
-  repeat split; try lra. intro H. injection H; intros. lra.
-Qed.
-Print Assumptions C19_intersect_plane_lam_refuted.
-
-(* the relation that does hold: the line parameter of the intersection point is  -lam |w| / (w.n) *)
-Theorem C19_intersect_plane_lam_partial : forall (L : V6 R) (a : V4 R),
-  is_line L -> 0 < pc_ip_0 Rops L a -> 0 < pc_point_0 Rops L 0 ->
-  tr_point Rops L (- tr_ip_lam Rops L a * sqrt (normsq3 Rops (lw L)) * (1 / dot3 Rops (lw L) (pn a))) = tr_ip_p Rops L a /\
-  (dot3 Rops (lw L) (pn a) = - sqrt (normsq3 Rops (lw L)) -> tr_point Rops L (tr_ip_lam Rops L a) = tr_ip_p Rops L a).
+(* full statement (repaired by /repo a2fbf35): lam is the parameter of the intersection point *)
+Theorem C19_intersect_plane_lam : forall (L : V6 R) (a : V4 R),
+  is_line L -> 0 < pc_ip_0 Rops L a -> 0 < pc_ip_1 Rops L a ->
+  tr_point Rops L (tr_ip_lam Rops L a) = tr_ip_p Rops L a /\
+  tr_ip_lam Rops L a = dot3 Rops (vsub3 Rops (tr_ip_p Rops L a) (tr_pp Rops L)) (lw L) / sqrt (normsq3 Rops (lw L)).
 Proof.
   intros L a HL H HP. destruct_tuples. unf2. den_nz H. abs_sqrt. pos_sqrt. split.
   - abs_inv. tuple_eq ltac:(nsz).
-  - intros HN. abs_inv. tuple_eq ltac:(nsz).
+  - fld.
 Qed.
-Print Assumptions C19_intersect_plane_lam_partial.
+Print Assumptions C19_intersect_plane_lam.
 
 (* ---------- planes:  a x + b y + c z + d = 0  ---------- *)
 Theorem C19_PlanePN_contains_point : forall p n : V3 R,
@@ -311,20 +315,46 @@ Proof.
 Qed.
 Print Assumptions C19_Plane_contains_iff.
 
+(* Plane.P3 (repaired by /repo 80f9d50): the three points (columns of the 3x3 argument) satisfy the plane equation,
+   and the normal is (p2 - p1) x (p3 - p1) *)
+Definition col (p : M33 R) (j : nat) : V3 R := col33 p j.
+Theorem C19_PlaneP3_contains_points : forall p : M33 R,
+  plane_res (tr_PlaneP3 Rops p) (col p 0) = 0 /\ plane_res (tr_PlaneP3 Rops p) (col p 1) = 0 /\
+  plane_res (tr_PlaneP3 Rops p) (col p 2) = 0 /\
+  pn (tr_PlaneP3 Rops p) = cross3 Rops (vsub3 Rops (col p 1) (col p 0)) (vsub3 Rops (col p 2) (col p 0)) /\
+  tr_Plane_contains_res Rops (tr_PlaneP3 Rops p) (col p 0) = 0 /\ tr_Plane_contains_res Rops (tr_PlaneP3 Rops p) (col p 1) = 0 /\
+  tr_Plane_contains_res Rops (tr_PlaneP3 Rops p) (col p 2) = 0.
+Proof.
+  intros p.
+  assert (A : plane_res (tr_PlaneP3 Rops p) (col p 0) = 0 /\ plane_res (tr_PlaneP3 Rops p) (col p 1) = 0 /\
+              plane_res (tr_PlaneP3 Rops p) (col p 2) = 0).
+  { destruct_tuples. unfold col. unf2. repeat split; ring. }
+  destruct A as (A0 & A1 & A2). repeat split; try assumption.
+  - destruct_tuples. unfold col. unf2. tuple_eq ltac:(ring).
+  - apply (proj2 (C19_Plane_contains_residual _ _)); exact A0.
+  - apply (proj2 (C19_Plane_contains_residual _ _)); exact A1.
+  - apply (proj2 (C19_Plane_contains_residual _ _)); exact A2.
+Qed.
+Print Assumptions C19_PlaneP3_contains_points.
+
 (* non-vacuity of the hypotheses used in this file: two skew lines with perpendicular unit directions,
    a plane that cuts the first *)
 Example C19_c_nonvacuous :
-  let L := (0,0,0,1,0,0) in let M := (1,0,0,0,1,0) in
+  let L := (0,0,0,1,0,0) in let M := (1,0,0,0,1,0) in let N := (0,-1,0,1,0,0) in
   is_line L /\ is_line M /\ on L (3,0,0) /\ on M (0,7,1) /\ cp_path L M /\ dist_path L M /\
-  normsq3 Rops (lw L) = 1 /\ normsq3 Rops (lw M) = 1 /\ dot3 Rops (lw L) (lw M) = 0 /\
-  0 < pc_recip_0 Rops L M /\ 0 < pc_recip_1 Rops L M /\ 0 < pc_eq_0 Rops L (scale6 2 L) /\ 0 < pc_eq_1 Rops L (scale6 2 L) /\
-  0 < pc_ip_0 Rops L (-1,0,0,2) /\ dot3 Rops (lw L) (pn (-1,0,0,2)) = - sqrt (normsq3 Rops (lw L)) /\
-  tr_distance Rops L M = 1.
+  normsq3 Rops (lw L) <> 0 /\ normsq3 Rops (lw M) <> 0 /\
+  0 < pc_eq_0 Rops L (scale6 2 L) /\ 0 < pc_eq_1 Rops L (scale6 2 L) /\
+  0 < pc_ip_0 Rops L (-1,0,0,2) /\ 0 < pc_ip_1 Rops L (-1,0,0,2) /\
+  tr_distance Rops L M = 1 /\
+  on N (0,0,1) /\ on M (0,0,1) /\ pc_intersects_0 Rops N M <= 0 /\ pc_distance_meet_0 Rops N M <= 0 /\
+  lw (0,-1,0,2,0,0) = vscale3 Rops 2 (lw L) /\ on (0,-1,0,2,0,0) (0,0,1).
 Proof.
-  unfold cp_path, dist_path. unf2. abs_sqrt. lit_sqrt.
+  unfold cp_path, dist_path. unf2.
+  repeat match goal with |- context [sqrt ?e] => progress (replace e with 1 by ring) end.
+  rewrite sqrt_1.
   repeat match goal with |- context [Rabs ?E] => progress (replace E with 1 by field) end.
   rewrite Rabs_R1.
   repeat match goal with |- context [Rabs ?E] => progress (replace E with (-1) by field) end.
   replace (Rabs (-1)) with 1 by (rewrite Rabs_left; lra).
-  repeat split; try lra; try (tuple_eq ltac:(ring)); try field.
+  repeat split; try lra; try (tuple_eq ltac:(ring)); try field; try (intro; lra).
 Qed.
